@@ -33,6 +33,10 @@ MUTATIONS = [
     ("dask_expr/_repartition.py", "        split_name = f\"split-{new_name}\"", "        split_name = f\"split-{df._name}\"", "vf.contracts.layers:MoreLayer", "post:K3-only-own-keys"),
     ("dask_expr/_repartition.py", "k)\n                for jj in range(k):\n                    dsk[new_name, j] = (getitem, (split_name, i), jj)", "k)\n                for jj in range(k):\n                    dsk[new_name, j] = (getitem, (split_name, i), k - jj)", "vf.contracts.layers:MoreLayer", "post:dataflow-split-in-order"),
     ("dask_expr/_repartition.py", "                dsk[new_name, j] = (df._name, i)\n                j += 1", "                dsk[new_name, j] = (df._name, i)\n                j += 2", "vf.contracts.layers:MoreLayer", "inv-preserved:loop0"),
+    ("dask_expr/_repartition.py", "                    [(new_name, j) for j in range(start, end)],", "                    [(new_name, j) for j in range(start, end + 1)],", "vf.contracts.layers:SizeLayer", "post:K1-outputs-concat-range"),
+    ("dask_expr/_repartition.py", "            new_name = self.frame._name\n", "            new_name = self._name\n", "vf.contracts.layers:SizeLayer", "post:K1-outputs-concat-range"),
+    ("dask_expr/_repartition.py", "            j = 0\n            for i, k in enumerate(self._nsplits):\n                if k == 1:\n                    dsk[new_name, j] = (df._name, i)", "            j = 0\n            for i, k in enumerate(self._nsplits):\n                if k == 1:\n                    dsk[new_name, j] = (df._name, j)", "vf.contracts.layers:SizeLayer", "post:dataflow-split-in-order"),
+    ("dask_expr/_repartition.py", "                    dsk[split_name, i] = (split_evenly, (df._name, i), k)\n                    for jj in range(k):", "                    dsk[split_name, i] = (split_evenly, (df._name, i), k)\n                    for jj in range(k - 1):", "vf.contracts.layers:SizeLayer", "inv-preserved:loop0"),
     ("dask_expr/_repartition.py", "        nsplits[-1] += mod\n", "        nsplits[0] += mod\n", "vf.contracts.layers:MoreNSplits", "post:"),
     ("dask_expr/_repartition.py", "        return (None,) * (1 + sum(self._nsplits))", "        return (None,) * (1 + len(self._nsplits))", "vf.contracts.layers:MoreDivisions", "post:length-new+1"),
     ("dask_expr/io/io.py", "        for part, k in enumerate(self.operand(\"keys\")):\n            dsk[(self._name, part)] = k", "        for part, k in enumerate(sorted(self.operand(\"keys\"))):\n            dsk[(self._name, part)] = k", "vf.contracts.layers:FromGraphLayer", "HARMLESS-OR-UNDECIDED"),
